@@ -586,8 +586,8 @@ impl Prop for C16 {
         }
         // storage configurations on a spread of histories
         let mut cfgs = vec![];
-        for cache in [Some(1u64 << 20), None] {
-            for fl in [None, Some(50u64)] {
+        for cache in [Some(1u64 << 20), None, Some(1u64 << 12), Some(150_000)] {
+            for fl in [None, Some(50u64), Some(1)] {
                 for mode in ["HighThroughput", "LowSpace"] {
                     cfgs.push(Cfg { cache, flush_ms: fl, mode, compression: false });
                 }
